@@ -357,8 +357,13 @@ RESET_OPS = {
 }
 
 
+def reset_models():
+    """the 8 signature models + the sleep model (mj_resetData re-runs mj_forward to put init-asleep trees to sleep)"""
+    return M.C26_MODELS + [("sleep", M.m_sleep), ("stack", M.m_stack)]
+
+
 def check_reset(lib, part, mi, oi, depth):
-    name, fn = M.C26_MODELS[mi]
+    name, fn = reset_models()[mi]
     cmp = N.cmp_for(lib)
     opt = RESET_OPTIONS[oi]
     m = lib.load_xml(fn(opt))
@@ -454,6 +459,7 @@ def run(ctx):
         for lo in range(0, nsig, step):
             jobs.append(("sig", mi, lo, lo + step, ctx.thorough))
         jobs.append(("err", mi))
+    for mi in range(len(reset_models())):
         for oi in range(len(RESET_OPTIONS)):
             jobs.append(("reset", mi, oi, ctx.q(2, 3)))
     core.pmap(ctx, _chunk, jobs, nchunks=min(len(jobs), core.NCPU * 6))
@@ -463,7 +469,8 @@ def run(ctx):
                 "history-heavy; free+ball+slide; nv=0) x all 2^14 signatures: stateSize/getState/setState/copyState, and "
                 "extractState for dst in {src, 0, src minus each component, each single component, src & PHYSICS/FULLPHYSICS/"
                 "USER/INTEGRATION} plus one non-subset dst (must raise); 9 invalid signatures x 6 entry points per model; "
-                "mj_resetData after every history of depth <= %d over %s under 4 option sets, and mj_resetDataKeyframe for "
+                "mj_resetData (8 models + sleep-init model + contact stack) after every history of depth <= %d over %s under 4 "
+                "option sets (default; RK4; implicitfast+elliptic+energy; sleep enabled), and mj_resetDataKeyframe for "
                 "every key in [-1, nkey]. non-trivial = signature selecting at least one non-empty component and leaving at "
                 "least one non-empty component unselected; reset history containing a state-changing call"
                 % (ctx.q(2, 3), sorted(RESET_OPS)))
@@ -484,7 +491,7 @@ def replay(ctx, path):
     elif "api" in r:
         check_errors(lib, part, names.index(r["model"]))
     elif "history" in r:
-        check_reset(lib, part, names.index(r["model"]), RESET_OPTIONS.index(r["option"]), len(r["history"]))
+        check_reset(lib, part, [n for n, _ in reset_models()].index(r["model"]), RESET_OPTIONS.index(r["option"]), len(r["history"]))
     ctx.merge(part)
     ctx.rule = "replay"
     return ctx.finish()
